@@ -341,7 +341,7 @@ func zzMkContribs(slot phase0.Slot, subnets []uint64, tag byte) *spectypes.Contr
 	cs := spectypes.Contributions{}
 	for _, sn := range subnets {
 		c := &spectypes.Contribution{Contribution: altair.SyncCommitteeContribution{Slot: slot, SubcommitteeIndex: sn}}
-		c.Contribution.BeaconBlockRoot[0] = tag
+		c.Contribution.BeaconBlockRoot[0] = tag + byte(16*len(cs))
 		c.SelectionProofSig[0], c.SelectionProofSig[1] = 1, byte(sn)
 		cs = append(cs, c)
 	}
@@ -400,7 +400,13 @@ func ZZHarnessContributionFlow() {
 		selected = seats[1:]
 	}
 	own1 := zzMkContribs(H, selected, 0x51)
-	other := zzMkContribs(H, selected, 0x52)
+	// the other value peers may decide on: different contributions, all for ONE subcommittee (nothing in the value check
+	// forbids that; each is still a distinct decided object)
+	otherSubnets := make([]uint64, len(selected))
+	for i := range otherSubnets {
+		otherSubnets[i] = selected[0]
+	}
+	other := zzMkContribs(H, otherSubnets, 0x52)
 	g.bn.contribs = own1
 	ownSSZ, _ := zzContribsMarshal(own1)
 	otherSSZ, _ := zzContribsMarshal(other)
@@ -427,13 +433,21 @@ func ZZHarnessContributionFlow() {
 	if zzParam("PRE") == 1 {
 		bad := map[spectypes.OperatorID]bool{}
 		validFrom := map[spectypes.OperatorID]bool{}
+		honestPre := int(zzParam("HONEST")) // the first HONEST messages are valid ones of distinct members (bounds the search)
 		for step := 0; step < q+1; step++ {
-			signer := members[zzChoose("preSender", n)]
+			var signer spectypes.OperatorID
+			if step < honestPre {
+				signer = members[(int(zzParam("OWN"))+1+step)%n]
+			} else {
+				signer = members[zzChoose("preSender", n)]
+			}
 			sigs := make([][]byte, nidx)
 			valid := true
 			for i := range seats {
 				sigs[i] = zzSigBy(byte(signer), selRoots[i])
-				sigs[i][0] = zzNondetByte("preFlag")
+				if step >= honestPre {
+					sigs[i][0] = zzNondetByte("preFlag")
+				}
 				valid = valid && sigs[i][0] == 1
 			}
 			if !valid {
